@@ -173,7 +173,7 @@ func runOldSchema(o *opts) {
 		// a commit on top records the current workspace faithfully
 		abs := filepath.Join(p.Root, c.artPath)
 		ek := applyEdit(rr, p, c, abs)
-		if ek != "" && ek != "dangle" && ek != "retarget" {
+		if ek != "" && ek != "dangle" && ek != "retarget" && ek != "drop-object" {
 			t, _ = p.do(Cmd{Kind: "commit", Copy: rr.chance(1, 2)}, nil, want(11, 7), nil, nil)
 			tagIt(t, "commit on top after "+ek)
 			t, _ = p.do(Cmd{Kind: "status"}, nil, want(11, 15), nil, nil)
